@@ -10,11 +10,16 @@ import sys
 
 _real_urandom = os.urandom
 DRAWN = [0]
+LOG = []          # the byte strings the OS generator returned, in order, since the last reset
 
 
 def _counting_urandom(n):
     DRAWN[0] += n
-    return _real_urandom(n)
+    b = _real_urandom(n)
+    LOG.append(b)
+    if len(LOG) > 4096:
+        del LOG[:2048]
+    return b
 
 
 os.urandom = _counting_urandom
@@ -37,6 +42,19 @@ N = int(sys.argv[2])
 gen = random.Random("c14-%d" % seed)     # the harness's own PRNG (an instance: module state untouched)
 viol = []
 stats = {}
+LAST = [b""]       # OS bytes returned during the last monitored call
+derivation = {"format3": [], "mismatch": [], "checked": {"format3": 0, "format4_field": 0, "format4_block": 0, "tr31": 0}}
+
+
+def mirror_choices(stream, n):
+    """Python mirror of Model/Entropy.v draw (validated against the extracted model by the caller on a sample)"""
+    out = []
+    for b in stream:
+        if len(out) == n:
+            break
+        if b >> 5 < 6:
+            out.append(b >> 5)
+    return out if len(out) == n else None
 TESTS = 16384                             # upper bound on the number of frequency tests of one run
 EPS = math.sqrt((math.log(2) * (60 + math.log2(TESTS)) + math.log(2)) / (2 * N))   # Hoeffding: total failure < 2^-60
 
@@ -45,7 +63,9 @@ def monitored(f, *a):
     """-> (result, OS bytes drawn during the call, module PRNG state unchanged?)"""
     st = random.getstate()
     d0 = DRAWN[0]
+    del LOG[:]
     r = f(*a)
+    LAST[0] = b"".join(LOG)
     return r, DRAWN[0] - d0, random.getstate() == st
 
 
@@ -161,6 +181,15 @@ for L in range(4, 13):
             viol.append({"what": "format 3: the user-space random module state changed during the call"})
         if nib[:2 + L] != [3, L] + [int(c) for c in pin]:
             viol.append({"what": "format 3: deterministic prefix wrong"})
+        # derivation: fill = "ABCDEF"[symbol] for the symbols the model draws from the OS bytes of this call
+        syms = mirror_choices(LAST[0], 14 - L)
+        derivation["checked"]["format3"] += 1
+        if syms is None or [10 + x for x in syms] != fill:
+            if len(derivation["mismatch"]) < 20:
+                derivation["mismatch"].append({"what": "format 3 fill is not secrets.choice's function of the OS bytes drawn in the call",
+                                               "pin_len": L, "os_bytes": LAST[0].hex(), "fill": fill, "model_symbols": syms})
+        elif len(derivation["format3"]) < 400 and gen.random() < 0.05:
+            derivation["format3"].append([list(LAST[0]), 14 - L, fill])
     freq_check("format 3 fill (PIN length %d)" % L, cols, [10, 11, 12, 13, 14, 15])
     # joint: whole fill when short enough, and every window of 2 and 3 adjacent fill digits
     joint_cover_check("format 3 whole fill (PIN length %d)" % L, fills, [10, 11, 12, 13, 14, 15])
@@ -177,6 +206,9 @@ for _ in range(N):
     rows.append(f[8:])
     if drawn < 8 or not same:
         viol.append({"what": "format 4 PIN field: %d OS bytes drawn (need 8); random state unchanged: %s" % (drawn, same)})
+    derivation["checked"]["format4_field"] += 1
+    if f[8:] != LAST[0] and f[8:] not in LAST[0] and len(derivation["mismatch"]) < 20:
+        derivation["mismatch"].append({"what": "format 4 PIN field tail is not the OS bytes drawn in the call", "os_bytes": LAST[0].hex(), "tail": f[8:].hex()})
     if o.nibbles(f)[:16] != o.pin_field4_nibbles(pin, b"")[:16]:
         viol.append({"what": "format 4 PIN field: deterministic half wrong"})
 bit_freq_check("format 4 PIN field tail", rows)
@@ -193,6 +225,10 @@ for _ in range(N // 2):
     rows.append(pf[8:])
     if drawn < 8 or not same:
         viol.append({"what": "format 4 block: %d OS bytes drawn (need 8); random state unchanged: %s" % (drawn, same)})
+    derivation["checked"]["format4_block"] += 1
+    if pf[8:] != LAST[0] and pf[8:] not in LAST[0] and len(derivation["mismatch"]) < 20:
+        derivation["mismatch"].append({"what": "format 4 block: the deciphered PIN field tail is not the OS bytes drawn in the call",
+                                       "os_bytes": LAST[0].hex(), "tail": pf[8:].hex()})
 bit_freq_check("format 4 block tail", rows)
 stats["format4_block"] = N // 2
 # ---------------------------------------------------------------- TR-31 key padding
@@ -212,6 +248,10 @@ for v in "ABCD":
         pad = clear[2 + kl:]
         if int.from_bytes(clear[:2], "big") != 8 * kl or clear[2:2 + kl] != key:
             viol.append({"what": "TR-31 %s: clear key data does not start with length + key" % v})
+        derivation["checked"]["tr31"] += 1
+        if pad != LAST[0] and pad not in LAST[0] and len(derivation["mismatch"]) < 20:
+            derivation["mismatch"].append({"what": "TR-31 %s: the key padding is not the OS bytes drawn in the call (model: tape = pad, verbatim)" % v,
+                                           "os_bytes": LAST[0].hex(), "pad": pad.hex(), "key_len": kl, "mask": mask, "algorithm": alg})
         if drawn < len(pad) or not same:
             viol.append({"what": "TR-31 %s: %d padding bytes but %d OS bytes drawn; random state unchanged: %s" % (v, len(pad), drawn, same)})
         # the whole pad must be random: look at its head and at its tail, separately for the case where the key
@@ -263,4 +303,4 @@ for name, thunk in call_sequences():
     if child.decode() == (parent.hex() if isinstance(parent, bytes) else parent):
         viol.append({"what": "freshness: '%s' identical in parent and forked child" % name})
     stats["fresh_" + name] = 3
-print(json.dumps({"violations": viol, "stats": stats, "eps": EPS, "calls": sum(v for k, v in stats.items() if not k.startswith("fresh_"))}))
+print(json.dumps({"derivation": derivation, "violations": viol, "stats": stats, "eps": EPS, "calls": sum(v for k, v in stats.items() if not k.startswith("fresh_"))}))
